@@ -48,7 +48,7 @@ func init() {
 					runC18(c, d, nSp)
 				},
 				Finish:   reportHooks,
-				Required: []string{"variation:spaces", "variation:quotes", "variation:int", "variation:rootless", "same:values", "same:error", "quotes:raw-text-values", "quotes:raw-text-error"},
+				Required: []string{"variation:spaces", "variation:quotes", "variation:int", "variation:rootless", "variation:leading-blank", "same:values", "same:error", "quotes:raw-text-values", "quotes:raw-text-error"},
 			}
 		},
 	})
@@ -103,6 +103,14 @@ func runC18(c *harness.Ctx, d *diffCase, nSp int) {
 	canonFrame, canonIdx := errShape(canon.Err, d.Texts)
 	for i := 0; i < nSp; i++ {
 		text, texts := d.P.Render(gen.RandomSpelling(r))
+		// leading / trailing blanks around the whole path (with and without its leading `$`)
+		if r.Intn(3) == 0 {
+			text = "  "[:1+r.Intn(2)] + text
+			c.Cover("variation:leading-blank")
+		}
+		if r.Intn(4) == 0 {
+			text += "  "[:1+r.Intn(2)]
+		}
 		if text == d.Text {
 			continue
 		}
